@@ -95,6 +95,15 @@ fn workloads_for(thorough: bool) -> Vec<Workload> {
 			w.opt = opt;
 			v.push(w);
 		}
+		// every short operation list (length <= 3) of the crash engine's alphabet: commits of both
+		// durabilities, delete, flush, compaction, rotate, drain, reopen, synced log flush
+		for ops in crate::props::crash::short_workloads(3) {
+			v.push(Workload {
+				opt: OptSet::base("L2-short-lists"),
+				ops,
+				forced_height: 1,
+			});
+		}
 	}
 	v
 }
@@ -385,7 +394,7 @@ pub fn check(tier: Tier) -> i32 {
 	report.violations.sort_by_key(|v| v.what.is_empty());
 	report.set("evaluations", json!(total_done));
 	report.set("distinct_nontrivial", json!(total_done));
-	report.set("rule", json!("7 workloads (4 x 10 commits of 500-byte values with both durabilities, rotate, flush-oldest, drain; 4 KiB memtable so a rotation also happens inside apply; option sets plain / vlog / versioned index / flush-on-close with reopen; 2 x overwrites, deletes and 2-3-key transactions on three keys with rotate, flush, drain, compaction, without and with a reopen in the middle; 1 x six commits of 8 KiB values, larger than any write buffer; judged at value level) x every position n of every call class {write-like: EIO, ENOSPC, short write then ENOSPC; fsync: EIO; rename: EIO; create: ENOSPC} x {once, persistent}; each run is distinct; non-trivial = runs in which the armed position lies within the fault-free call count (all of them)"));
+	report.set("rule", json!("(thorough tier adds the 7th workload on four more option sets and every operation list of length <= 3 over {set a, set b Immediate, set a+b, delete a, flush-all, compaction, rotate, drain, reopen, flush_wal(sync)}) 7 workloads (4 x 10 commits of 500-byte values with both durabilities, rotate, flush-oldest, drain; 4 KiB memtable so a rotation also happens inside apply; option sets plain / vlog / versioned index / flush-on-close with reopen; 2 x overwrites, deletes and 2-3-key transactions on three keys with rotate, flush, drain, compaction, without and with a reopen in the middle; 1 x six commits of 8 KiB values, larger than any write buffer; judged at value level) x every position n of every call class {write-like: EIO, ENOSPC, short write then ENOSPC; fsync: EIO; rename: EIO; create: ENOSPC} x {once, persistent}; each run is distinct; non-trivial = runs in which the armed position lies within the fault-free call count (all of them)"));
 	report.set("samples", json!(samples));
 	report.set("call_counts_fault_free", json!(all_counts));
 	report.set("fault_runs_planned", json!(total_planned));
